@@ -66,6 +66,10 @@ def run(ck):
     cpus_flow(ck)
     canonical_order(ck)
     shared_inputs(ck, "C09.6")
+    ck.clause("C09.7", "the set of tasks does not depend on the worker count: one task per query (as C10.6)")
+    from ..report import RuleView
+    from .c10 import per_query_tasks
+    per_query_tasks(RuleView(ck, {"C10.6": "C09.7"}))
 
 
 # ---------------------------------------------------------------------------------------------------------- C09.1
@@ -99,8 +103,27 @@ def ordered_map(ck):
 
 
 # ---------------------------------------------------------------------------------------------------------- C09.2
+def _module_rng_names(f: FunctionInfo):
+    """module-level names bound to a random-number generator object (random.Random(...), numpy.random.default_rng(...), ...)"""
+    out = set()
+    for st in f.module.tree.body:
+        if isinstance(st, ast.Assign) and isinstance(st.value, ast.Call):
+            txt = ast.unparse(st.value.func)
+            if txt.startswith(("random.", "np.random.", "numpy.random.")) or txt in ("Random", "SystemRandom", "default_rng", "RandomState"):
+                for t in st.targets:
+                    if isinstance(t, ast.Name):
+                        out.add(t.id)
+    return out
+
+
 def _nondet_calls(ctx, f: FunctionInfo):
+    rngs = _module_rng_names(f)
     for c in E.iter_calls(f):
+        if rngs and isinstance(c.func, ast.Attribute) and isinstance(c.func.value, ast.Name) and c.func.value.id in rngs:
+            # a module-level generator object is per-process state that advances with every call: what a worker draws
+            # depends on how many molecules it has handled before (a fixed seed does not help)
+            yield f"{c.func.value.id}.{c.func.attr} (module-level random generator)", c
+            continue
         name = E.dotted_call_name(ctx, f, c)
         if name is None:
             continue
